@@ -217,8 +217,15 @@ def mutate(rnd, seed):
         if k == 'body' and isinstance(body, (dict, list)):
             ps = _paths(body)
             p = rnd.choice(ps)
-            op = rnd.choice(['replace', 'replace', 'replace', 'delete', 'addkey', 'dupe_rename', 'cross', 'unknown_id'])
+            op = rnd.choice(['replace', 'replace', 'replace', 'delete', 'addkey', 'dupe_rename', 'cross', 'unknown_id',
+                             'nonfinite'])
             try:
+                if op == 'nonfinite':
+                    # a number that JSON parsers accept and no schema bounds: NaN, Infinity
+                    nums = [q for q in ps if q and isinstance(_get(body, q), (int, float)) and not isinstance(_get(body, q), bool)]
+                    if nums:
+                        body = _set(body, rnd.choice(nums), float(rnd.choice(['nan', 'inf', '-inf'])))
+                    op = 'done'
                 if op == 'unknown_id':
                     # a well-formed name of something that does not exist, as key or value
                     txt = json.dumps(body)
